@@ -172,6 +172,13 @@ def run(ctx):
     ctx.ob("R6.crc-write", "reader-verify-default|carquet_reader_options_init", P.where(ro.body),
            "verify_checksums defaults to true", on)
 
+    # ---- the lookup tables exist before any byte is folded through them
+    ctx.clause("C14.6 the lazily built CRC tables are built before every read of them")
+    from ..rules import lazyinit
+    nl, inst = lazyinit.check(ctx, [CRC])
+    ctx.floor("C14 lazily initialised tables in crc32.c", len(inst), 1)
+    ctx.floor("C14 readers of the CRC tables", nl, 1)
+
     # ---- constant
     gen = P.fn("crc32_init_tables", CRC)
     consts = set(n.cv & 0xFFFFFFFF for n in gen.body.walk() if n.cv is not None and n.cv > 0xFFFF)
@@ -224,23 +231,59 @@ def run(ctx):
     ctx.ob("R4.skeleton", "crc-covers|%s:crc32_slicing_by_8" % CRC, P.where(core.body),
            "for every length 0..%d every input byte is read by the CRC routine" % NMAX, bad_cov is None,
            "length %s: bytes %s never enter the checksum" % bad_cov if bad_cov else "")
-    # both entry points delegate with their own (data, length)
+    # both entry points are executed abstractly with the core routine hooked, over running values x
+    # lengths (incl. 0) x NULL / non-NULL data: each returns what the core computes for exactly its own
+    # (running crc | 0, data, length); for an empty chunk it may also answer itself, with the unchanged value
+    from ..rules import sem
+    try:
+        bad0 = None
+        for c0 in (0, 1, 0x1234ABCD, 0xFFFFFFFF):
+            a0 = [0] * len(core.params)
+            a0[didx[0]] = Ptr("data", 0, 1)
+            a0[nidx[-1]] = 0
+            ci = [i for i, p_ in enumerate(core.params) if i not in (didx[0], nidx[-1])]
+            if len(ci) != 1:
+                raise sem.Inconclusive("core routine has no single running-value parameter")
+            a0[ci[0]] = c0
+            for ret, ev, _h in sem.run(P, core, a0, single=False, max_forks=16, budget=400000):
+                if ret != c0 and bad0 is None:
+                    bad0 = "core(%#x, data, 0) returns %s" % (c0, hex(ret) if isinstance(ret, int) else ret)
+        ctx.ob("R5.agree", "crc-empty|%s:%s" % (CRC, core.name), P.where(core.body),
+               "folding zero bytes leaves the running CRC unchanged (so chunked updates compose at chunk boundaries)", bad0 is None, bad0 or "")
+    except sem.Inconclusive as ex:
+        ctx.inconclusive("R5.agree", "crc-empty|%s:%s" % (CRC, core.name), P.where(core.body), "abstract execution of the core routine", str(ex))
     for ep in ("carquet_crc32", "carquet_crc32_update"):
         f = P.fn(ep, CRC)
-        cs = f.calls("crc32_slicing_by_8")
-        okd = False
-        if len(cs) == 1:
-            t = [Canon(f)(x) for x in cs[0].args()]
-            pn = [p["n"] for p in f.params]
-            okd = t[-2][0] == "param" and t[-1][0] == "param" and \
-                pn[t[-2][1]] == "data" and pn[t[-1][1]] == "length"
-            if ep == "carquet_crc32":
-                okd = okd and t[0] == ("int", 0)
-            else:
-                okd = okd and t[0][0] == "param"
-        ctx.ob("R5.agree", "crc-entry|%s:%s" % (CRC, ep), P.where(f.body),
-               "%s passes its own (data, length) and %s to the core routine"
-               % (ep, "initial value 0" if ep == "carquet_crc32" else "the running crc"), okd)
+        bad = None
+        npts = 0
+        try:
+            for c0 in (0, 1, 0x1234ABCD, 0xFFFFFFFF):
+                for n_ in (0, 1, 7, 8, 9, 100):
+                    for dptr in (Ptr("chunk", 0, 1), 0):
+                        if dptr == 0 and n_ != 0:
+                            continue
+                        if ep == "carquet_crc32" and c0 != 0:
+                            continue
+                        npts += 1
+                        marker = 0x5EED0000 + n_
+                        hooks = {core.name: (lambda ev, a, it, marker=marker: ev.append(("core",) + tuple(
+                            (x.base, x.off) if isinstance(x, Ptr) else x for x in a)) or marker)}
+                        args = [dptr, n_] if ep == "carquet_crc32" else [c0, dptr, n_]
+                        for ret, ev, _h in sem.run(P, f, args, hooks=hooks, single=False, max_forks=16):
+                            want_args = ("core", c0 if ep != "carquet_crc32" else 0,
+                                         ("chunk", 0) if dptr != 0 else 0, n_)
+                            delegated = ev == [want_args] and ret == marker
+                            own_empty = n_ == 0 and ev == [] and ret == (c0 if ep != "carquet_crc32" else 0)
+                            if not (delegated or own_empty) and bad is None:
+                                bad = "%s(%s%s, %d): core calls %s, returns %s" % (
+                                    ep, "%#x, " % c0 if ep != "carquet_crc32" else "", "data" if dptr != 0 else "NULL", n_,
+                                    ev, hex(ret) if isinstance(ret, int) else ret)
+            ctx.ob("R5.agree", "crc-entry|%s:%s" % (CRC, ep), P.where(f.body),
+                   "%s returns the core routine's result for exactly its own (data, length) and %s; an empty chunk leaves the value unchanged "
+                   "(%d points, abstract execution)" % (ep, "initial value 0" if ep == "carquet_crc32" else "the running crc", npts),
+                   bad is None, bad or "")
+        except sem.Inconclusive as ex:
+            ctx.inconclusive("R5.agree", "crc-entry|%s:%s" % (CRC, ep), P.where(f.body), "abstract execution of %s" % ep, str(ex))
 
 
 def _enable_table(crc):
